@@ -233,5 +233,9 @@ def run(ctx):
     rule_close_writes(ctx, r2, ("tracked jobs",))
     from .shared import rule_coroutines_awaited
     rule_coroutines_awaited(ctx, r2)
+    # "... and of no other target": the tracked jobs consulted are those of the project the command is run in (or given with -f), not of a project named by the environment
+    from .evalhelpers import cached_witness, report_witness, find_workflow_witness
+    report_witness(r2, "src/gwf/utils.py::find_workflow::project", "src/gwf/utils.py:1", cached_witness(ctx, "find-workflow", find_workflow_witness),
+                   "the project whose jobs are cancelled is found from the directory the process runs in (getcwd) or the -f path, whatever $PWD says")
     r3 = ctx.rule("R3", "after cancellation the next run is free to resubmit (CANCELLED/FAILED rows of the decision table)")
     rule_decision_table(ctx, r3)
